@@ -47,8 +47,27 @@ func genDuo(t *rapid.T) duo.Case {
 			c.Ops = append(c.Ops, duo.Op{K: "start", R: i})
 		}
 	}
+	resumedThenQueued := n >= 2 && rapid.IntRange(0, 5).Draw(t, "resumed-queued") == 0
+	if resumedThenQueued {
+		// request 0 runs, pauses itself, and is resumed while the only worker is busy with request 1 (held at
+		// the responder): it waits in the queue as a request that has run before; then something ends it
+		c.Reqs[0].ReqPauseAt, c.Reqs[0].RespPauseAt, c.Reqs[0].RespGateAt, c.Reqs[0].ReqGateAt = rapid.IntRange(1, 2).Draw(t, "qp0"), 0, 0, 0
+		c.Reqs[1].RespGateAt, c.Reqs[1].ReqPauseAt, c.Reqs[1].RespPauseAt, c.Reqs[1].ReqGateAt = 1, 0, 0, 0
+		c.Ops = []duo.Op{{K: "start", R: 0}}
+		for k := rapid.IntRange(3, 8).Draw(t, "warm"); k > 0; k-- {
+			c.Ops = append(c.Ops, duo.Op{K: "deliver", N: rapid.IntRange(0, 1).Draw(t, "l")})
+		}
+		c.Ops = append(c.Ops, duo.Op{K: "start", R: 1})
+		for k := rapid.IntRange(1, 4).Draw(t, "warm2"); k > 0; k-- {
+			c.Ops = append(c.Ops, duo.Op{K: "deliver", N: rapid.IntRange(0, 1).Draw(t, "l")})
+		}
+		c.Ops = append(c.Ops, duo.Op{K: "qunpause", R: 0}, duo.Op{K: rapid.SampledFrom([]string{"qcancel", "qcancel", "scancel", "tick"}).Draw(t, "end"), R: 0}, duo.Op{K: "tick"})
+	}
 	c.Ops = append(c.Ops, duo.GenOps(t, n, 30, opKinds)...)
 	c.MaxOut = rapid.SampledFrom([]int{0, 1, 1, 2}).Draw(t, "maxout")
+	if resumedThenQueued {
+		c.MaxOut = 1
+	}
 	c.MaxIn = rapid.SampledFrom([]int{0, 1, 1, 2}).Draw(t, "maxin")
 	c.PerPeer = rapid.SampledFrom([]int{0, 0, 0, 1}).Draw(t, "perpeer")
 	return c
